@@ -72,6 +72,9 @@ pub enum Op {
 #[derive(Clone, Debug, Serialize, Deserialize)]
 pub struct Case {
     pub ops: Vec<Op>,
+    /// entry-point sweep case (see sweep.rs); `ops` is ignored
+    #[serde(default)]
+    pub sweep: Option<crate::sweep::SweepCase>,
 }
 
 fn arg() -> impl Strategy<Value = Arg> {
@@ -145,22 +148,35 @@ impl Property for C17 {
         "C17"
     }
     fn rule(&self) -> &'static str {
-        "proptest histories (<=25 quick / <=45 thorough ops) over 4 addresses: add / remove operator (duplicates and absent addresses included) authorised by the owner, a former owner, a stranger or nobody; ownership transfer; execute(caller, target function, args) with the caller's own authorisation, the owner's instead, another operator's instead, or none, against a probe target offering echo1, echo3, sum, noargs, store and a failing function, plus wrong-arity and unknown-function calls, and collect_fees forwarded to a real gas service whose collector is the operators contract, with arguments of eight value kinds. Oracle: set model (membership swept over the pool after every step); execute succeeds iff the caller authorised and is a member at that moment and the target call succeeds; then the probe's call log grows by exactly one entry with the same function and arguments and the returned value equals the probe's; otherwise the call fails with the ledger snapshot identical. non-trivial = history contains an execute by a former member, or a successfully forwarded call with >= 2 arguments; distinct by Debug hash"
+        "proptest histories (<=25 quick / <=45 thorough ops) over 4 addresses: add / remove operator (duplicates and absent addresses included) authorised by the owner, a former owner, a stranger or nobody; ownership transfer; execute(caller, target function, args) with the caller's own authorisation, the owner's instead, another operator's instead, or none, against a probe target offering echo1, echo3, sum, noargs, store and a failing function, plus wrong-arity and unknown-function calls, and collect_fees forwarded to a real gas service whose collector is the operators contract, with arguments of eight value kinds. Oracle: set model (membership swept over the pool after every step); execute succeeds iff the caller authorised and is a member at that moment and the target call succeeds; then the probe's call log grows by exactly one entry with the same function and arguments and the returned value equals the probe's; otherwise the call fails with the ledger snapshot identical. non-trivial = history contains an execute by a former member, or a successfully forwarded call with >= 2 arguments; distinct by Debug hash. A share of the random cases is an entry-point sweep (construction as described for C13: the exported functions of all shipped contracts read from the sources of the tree under test, a complete deployed system, pooled arguments - including well-formed signer sets nobody installed and proofs properly signed by the gateway's own signer set over digests that belong to no command -, every require_auth satisfied by the host's mock and recorded; entry points absent from the pinned inventory get 300 deterministic cases each); oracle: a gas service whose collector is the operators contract pays out only if a current operator is among the recorded signers (forwarded calls are generated well-formed: target, function name and arguments chosen together); non-trivial = the call succeeded"
     }
     fn cases(&self, tier: Tier) -> u64 {
         tier.pick(4000, 60000)
     }
     fn strategy(&self, tier: Tier) -> BoxedStrategy<Case> {
+        let direct: BoxedStrategy<Case> = {
         (any::<bool>(), proptest::collection::vec(op(), 1..=tier.pick(25usize, 45usize)))
             .prop_map(|(start, mut ops)| {
                 let mut pre = if start { vec![Op::Add { by: By::Owner, who: 0 }, Op::Add { by: By::Owner, who: 1 }, Op::Add { by: By::Owner, who: 2 }] } else { vec![] };
                 pre.append(&mut ops);
-                Case { ops: pre }
+                Case { ops: pre, sweep: None }
             })
             .boxed()
+        };
+        match crate::sweep::strategy(crate::sweep::Rule::Operators) {
+            Some(sw) => prop_oneof![6 => direct, 1 => sw.prop_map(|s| Case { ops: vec![], sweep: Some(s) })].boxed(),
+            None => direct,
+        }
+    }
+
+    fn fixed_cases(&self, _tier: Tier) -> Vec<Case> {
+        crate::sweep::fixed_cases(300).into_iter().map(|s| Case { ops: vec![], sweep: Some(s) }).collect()
     }
 
     fn run(&self, case: &Case, cx: &mut Cx) -> Result<(), String> {
+        if let Some(sw) = &case.sweep {
+            return crate::sweep::run(sw, cx, crate::sweep::Rule::Operators);
+        }
         let env = new_env();
         let pool: Vec<Address> = (0..NA).map(|_| Address::generate(&env)).collect();
         let owner0 = Address::generate(&env);
